@@ -64,6 +64,17 @@ RLEfrom(c, i) ==          \* run-length list of c[i..]
        IN <<c[i], e - i>> \o RLEfrom(c, e)
 RLE(c) == RLEfrom(c, 1)
 
+RECURSIVE RLETake(_, _)
+RLETake(r, n) ==          \* first n bytes of the string
+  IF n <= 0 \/ r = <<>> THEN <<>>
+  ELSE IF r[2] >= n THEN <<r[1], n>>
+  ELSE <<r[1], r[2]>> \o RLETake(SubSeq(r, 3, Len(r)), n - r[2])
+RECURSIVE RLEDrop(_, _)
+RLEDrop(r, n) ==          \* the string without its first n bytes
+  IF r = <<>> THEN <<>>
+  ELSE IF n <= 0 THEN r
+  ELSE IF r[2] > n THEN <<r[1], r[2] - n>> \o SubSeq(r, 3, Len(r))
+  ELSE RLEDrop(SubSeq(r, 3, Len(r)), n - r[2])
 RECURSIVE RunTotal(_, _)
 RunTotal(r, i) == IF i > Len(r) THEN 0 ELSE r[i + 1] + RunTotal(r, i + 2)
 Scribbled(r) == IF r = <<>> THEN <<>> ELSE <<90, RunTotal(r, 1)>>   \* every byte := 'Z'
@@ -341,7 +352,10 @@ DenClip(pt, v) ==
   ELSE LET r == DenInt(pt, v) IN
        IF r.ret \in {"ok", "either"} THEN [ret |-> r.ret, den |-> ClipView(r.den[1])] ELSE r
 
-Den(pt, v) ==
+(* "ptxt"/"prle": the same text handed over through mpt_object_set_property *)
+Norm(v) == IF v.f = "ptxt" THEN [v EXCEPT !.f = "txt"] ELSE IF v.f = "prle" THEN [v EXCEPT !.f = "rle"]
+           ELSE IF v.f = "pnum" THEN [v EXCEPT !.f = "num"] ELSE v
+DenN(pt, v) ==
   CASE pt.t = "int"   -> DenInt(pt, v)
     [] pt.t = "real"  -> DenReal(pt, v)
     [] pt.t = "chr"   -> DenChr(pt, v)
@@ -351,6 +365,7 @@ Den(pt, v) ==
     [] pt.t = "intv"  -> DenIntv(pt, v)
     [] pt.t = "align" -> DenAlign(pt, v)
     [] pt.t = "clip"  -> DenClip(pt, v)
+Den(pt, v) == DenN(pt, Norm(v))
 
 ---------------------------------------------------------------------------
 (* Tier 1: slots *)
@@ -457,8 +472,8 @@ Determinate(name, v) ==
 Set(o, name, v) == Determinate(name, v) /\ SetX(o, name, v, "", <<>>)
 
 (* set_property(name, no value): documented default *)
-Reset(o, name) ==
-  LET i == SetResolve(kind, name) arg == [o |-> o - 1, name |-> name] IN
+Reset(o, name, f) ==      \* f = "null": set_property(name, 0); "pnull": mpt_object_set_property(.., name, 0)
+  LET i == SetResolve(kind, name) arg == [o |-> o - 1, name |-> name, f |-> f] IN
   IF i = 0 THEN Same /\ Answer("reset", arg, "refused", "", <<>>)
   ELSE LET p == Props(kind)[i] IN
        Touch(o, p.name, p.pt.def) /\ Answer("reset", arg, "ok", p.name, p.pt.def)
@@ -530,6 +545,42 @@ CParseX(c, oret, oval) ==
                        [] r.ret = "refused" -> [ret |-> "refused", col |-> <<1, 2, 3, 4>>]
                        [] OTHER -> [ret |-> oret, col |-> oval]]
 CParse(c) == ParseColor(c).ret \in {"ok", "refused"} /\ CParseX(c, "", <<>>)
+(* mpt_color_set / mpt_color_setalpha / mpt_lattr_set on scratch targets    *)
+(* preset to <<1,2,3,4>> resp. style 2, width 3, symbol 4, size 5           *)
+CSet(r, g, b) ==
+  /\ Same
+  /\ obs' = [a |-> "cset", arg |-> [r |-> r, g |-> g, b |-> b], tgt |-> "", den |-> <<>>,
+             exp |-> IF \A x \in {r, g, b} : x \in 0..255 THEN [ret |-> "ok", col |-> <<255, r, g, b>>]
+                     ELSE [ret |-> "refused", col |-> <<1, 2, 3, 4>>]]
+CAlpha(a) ==
+  /\ Same
+  /\ obs' = [a |-> "calpha", arg |-> [v |-> a], tgt |-> "", den |-> <<>>,
+             exp |-> IF a \in 0..255 THEN [ret |-> "ok", col |-> <<a, 2, 3, 4>>]
+                     ELSE [ret |-> "refused", col |-> <<1, 2, 3, 4>>]]
+LSet(w, st, sy, sz) ==     \* negative = documented default 1, 1, 0, 10; maxima 10, 5, 8, 20
+  LET d(x, def) == IF x >= 0 THEN x ELSE def IN
+  /\ Same
+  /\ obs' = [a |-> "lset", arg |-> [w |-> w, st |-> st, sy |-> sy, sz |-> sz], tgt |-> "", den |-> <<>>,
+             exp |-> IF w > 10 \/ st > 5 \/ sy > 8 \/ sz > 20 THEN [ret |-> "refused", la |-> <<2, 3, 4, 5>>]
+                     ELSE [ret |-> "ok", la |-> <<d(st, 1), d(w, 1), d(sy, 0), d(sz, 10)>>]]
+
+(* mpt_string_set on the first string member: m = "new" first n bytes of   *)
+(* the text c (n < 0: all of it); "self" the member's own address; "tail"  *)
+(* an address n bytes inside the current value                              *)
+FirstStr == CASE kind = "axis" -> "title" [] kind = "text" -> "value" [] kind = "graph" -> "axes"
+              [] kind = "world" -> "alias" [] OTHER -> ""
+SSet(o, m, c, n) ==
+  LET nm == FirstStr  arg == [o |-> o - 1, m |-> m, c |-> c, n |-> n]
+      cur == IF nm = "" THEN <<>> ELSE t1[o][nm]
+      len == RunTotal(cur, 1)
+      d == CASE m = "new"  -> IF n < 0 THEN c ELSE RLETake(c, n)
+             [] m = "self" -> cur
+             [] m = "tail" -> RLEDrop(cur, n)
+             [] OTHER      -> cur IN
+  IF nm = "" \/ (m = "new" /\ n > RunTotal(c, 1)) \/ (m # "new" /\ (len = 0 \/ n > len))
+  THEN Same /\ Answer("sset", arg, "skipped", "", <<>>)        \* the harness does not make such a call
+  ELSE Touch(o, nm, d) /\ Answer("sset", arg, "ok", nm, d)
+
 (* operator<<(ostream, color), and the printed text parsed again *)
 CPrint(c) ==
   /\ Same
@@ -594,6 +645,18 @@ FewVals(pt) ==
     [] pt.t = "align" -> {Num(14, "dec"), Txt(W_bez), Num(600, "dec")}
     [] pt.t = "clip"  -> {Num(6, "dec"), Txt(W_zx), Num(600, "dec")}
 
+\* through mpt_object_set_property: one accepted, one refused text, the empty text where it has a meaning
+PropVals(pt) ==
+  CASE pt.t = "int"   -> {V("pnum", pt.hi, <<>>, "dec"), V("ptxt", <<>>, W_abc, "")}
+    [] pt.t = "real"  -> {V("pnum", D(5), <<>>, "dec"), V("ptxt", <<>>, W_abc, "")}
+    [] pt.t = "chr"   -> {V("ptxt", <<>>, W_A, "")}
+    [] pt.t = "str"   -> {V("prle", <<>>, <<104, 1, 105, 1>>, ""), V("prle", <<>>, <<>>, ""), V("prle", <<>>, <<119, 600>>, "")}
+    [] pt.t = "col"   -> {V("ptxt", <<>>, W_blue, ""), V("ptxt", <<>>, W_h_reda, ""), V("ptxt", <<>>, W_abc, "")}
+    [] pt.t = "pt"    -> {V("pnum", D(1), <<>>, "dec"), V("pnum", D(-1), <<>>, "dec"), V("ptxt", <<>>, W_abc, "")}
+    [] pt.t = "intv"  -> {V("ptxt", <<>>, W_log, ""), V("pnum", D(14), <<>>, "dec"), V("ptxt", <<>>, W_lag, "")}
+    [] pt.t = "align" -> {V("ptxt", <<>>, W_bez, ""), V("pnum", D(14), <<>>, "dec")}
+    [] pt.t = "clip"  -> {V("ptxt", <<>>, W_zx, ""), V("pnum", D(14), <<>>, "dec")}
+
 \* other spellings offered per kind: case variants, foreign names
 ExtraSetNames(k) ==
   CASE k = "axis"  -> {N_TITLE, N_Begin, N_EXPONENT, N_Intervals, N_LPOS, N_bogus, N_tit, N_color}
@@ -630,12 +693,19 @@ AnyOp ==
   \/ \E nc \in CanonNames(kind) : \E v \in Vals(PropOfName(kind, nc).pt) : Set(1, nc, v)
   \/ \E nc \in AliasNames(kind) \cup ExtraSetNames(kind) : \E v \in FewVals(PropOfName(kind, nc).pt) : Set(1, nc, v)
   \/ \E nc \in CanonNames(kind) : \E v \in FewVals(PropOfName(kind, nc).pt) : Set(2, nc, v)
-  \/ \E nc \in CanonNames(kind) \cup AliasNames(kind) \cup ExtraSetNames(kind) : Reset(1, nc)
+  \/ \E nc \in CanonNames(kind) \cup AliasNames(kind) \cup ExtraSetNames(kind) : Reset(1, nc, "null")
+  \/ \E nc \in CanonNames(kind) \cup {N_bogus} : Reset(1, nc, "pnull")
+  \/ \E nc \in CanonNames(kind) \cup {N_bogus} : \E v \in PropVals(PropOfName(kind, nc).pt) : Set(1, nc, v)
   \/ \E nc \in GetNames(kind) : Get(1, nc)
   \/ \E v \in {Rle(<<104, 1, 105, 1>>), Rle(<<122, 90>>), Col(<<64, 3, 2, 1>>), Txt(W_abc)} : Auto(1, v)
   \/ \E m \in CopyModes : Copy(1, 2, m) \/ Copy(2, 1, m) \/ Copy(1, 1, m)
   \/ Scribble(1) \/ Scribble(2) \/ Fini(2) \/ Fini(1)
   \/ \E v \in ColVals : v.f = "txt" /\ CParse(v.c)
+  \/ \E x \in {-1, 0, 255, 256} : CSet(x, 7, 9) \/ CSet(7, x, 9) \/ CSet(7, 9, x) \/ CAlpha(x)
+  \/ \E x \in {-1, -7, 0, 5, 6} : LSet(x, 5, 8, 20) \/ LSet(10, x, 0, 0)
+  \/ \E x \in {-1, 8, 9, 20, 21} : LSet(10, 5, x, x) \/ LSet(x, 0, 0, 3)
+  \/ \E n \in {-1, 0, 2, 5} : SSet(1, "new", <<97, 2, 98, 3>>, n)
+  \/ SSet(1, "self", <<>>, 0) \/ \E n \in {0, 1, 2} : SSet(1, "tail", <<>>, n)
   \/ \E c \in {<<255, 0, 0, 0>>, <<255, 255, 128, 1>>, <<0, 10, 171, 16>>, <<128, 15, 0, 255>>, <<254, 9, 9, 9>>} : CPrint(c)
 
 Next == ops < MaxOps /\ ops' = ops + 1 /\ AnyOp
@@ -668,7 +738,7 @@ InDomain ==
 
 (* action properties (evaluated on the design tier) *)
 ObjOf(ob) == ob.arg.o + 1
-IsWrite(ob) == ob.a \in {"set", "reset", "auto"}
+IsWrite(ob) == ob.a \in {"set", "reset", "auto", "sset"}
 \* set-then-get: an accepted value reads back as what it denotes
 SetGet == [][(IsWrite(obs') /\ obs'.exp.ret = "ok")
              => View2(kind, t2'[ObjOf(obs')], obs'.tgt) = obs'.den]_vars
@@ -687,5 +757,5 @@ CopyEqual == [][obs'.a = "copy" =>
                  /\ AllView2(kind, t2'[obs'.arg.o + 1]) = AllView2(kind, t2[obs'.arg.from + 1])
                  /\ t2'[obs'.arg.from + 1] = t2[obs'.arg.from + 1] \/ obs'.arg.from = obs'.arg.o]_vars
 \* reads change nothing
-ReadOnly == [][obs'.a \in {"get", "cparse", "cprint"} => (t2' = t2 /\ t1' = t1)]_vars
+ReadOnly == [][obs'.a \in {"get", "cparse", "cprint", "cset", "calpha", "lset"} => (t2' = t2 /\ t1' = t1)]_vars
 =============================================================================
